@@ -83,3 +83,20 @@ Definition model_obs_sg (c : case_sg) : list N :=
   let l := sg_log k (sg_ts c) in
   N.of_nat k :: (if validate l then 1 else 0) :: canon_log l.
 Definition check_case_sg (c : case_sg) : bool := lN_eqb (model_obs_sg c) (sg_expect c).
+
+(* ---------- the run-local counter (session.rs; the kernel Session's seq threaded through the provider
+   pipe, the tool runner and the checkpoint helpers as `&mut u64`) ----------
+   A run is a sequence of emit sites; a site writes one frame carrying the counter and then adds `k` to
+   it.  The code as built has k = 1 at every site (re-extracted from the source on every run:
+   Gen/AppendOps.v gen_emit_sites); a site that forgets its increment (k = 0: the shape of seeded
+   change C01-3) makes the next frame repeat the seq. *)
+Fixpoint run_frames (sid cnt : N) (sites : list (etype * N)) : log :=
+  match sites with
+  | [] => []
+  | (t, k) :: r => {| fid := 0; sid := sid; seq := cnt; ety := t; args := [] |} :: run_frames sid (cnt + k) r
+  end.
+
+(* a static emit site as the extractor reports it: (line of the frame literal, how many `counter += 1`
+   statements stand between it and the next read of the counter / the end of its block) *)
+Definition sites_ok (sites : list (N * N)) : bool :=
+  negb (Nat.eqb (length sites) 0) && forallb (fun s => snd s =? 1) sites.
